@@ -18,6 +18,7 @@ import PoetryVerif.Proofs.PyConvPoetry
 import PoetryVerif.Proofs.PyConvLeaf
 import PoetryVerif.Proofs.PyConvIn
 import PoetryVerif.Proofs.PyConvLeafAlts
+import PoetryVerif.Proofs.PyConvNotIn
 import PoetryVerif.Proofs.VRangeOps
 import PoetryVerif.Proofs.MarkerProj
 import PoetryVerif.Proofs.PyConvWildNe
@@ -185,6 +186,16 @@ theorem pyConstraint_exact_leaf_in (E : Env) (X Y Z : Nat) (hE : EnvPy E X Y Z) 
       vc.allows (pyV X Y Z) = .ok b ∧ evalItem s.name s.op s.value false E = some b :=
   gpcLeaf_in2 E X Y Z hE s p0 rest hs hn hop hv
 
+/-- **`python_version not in "X0.Y0 X1.Y1 …"`**: the normaliser prints the one entry `!=X0.Y0.*, !=X1.Y1.*, …`, the
+constraint parser splits it at `, ` and intersects the excluded wildcards, and the result admits `X.Y.Z` exactly
+when `(X, Y)` is not listed — the reference value of the item. -/
+theorem pyConstraint_exact_leaf_notin (E : Env) (X Y Z : Nat) (hE : EnvPy E X Y Z) (s : Single) (p0 : Nat × Nat)
+    (rest : List (String × (Nat × Nat))) (hs : ∀ q ∈ rest, SepRun q.1)
+    (hn : s.name = "python_version") (hop : s.op = "not in") (hv : s.value = verList2 p0 rest) :
+    ∃ vc b, gpcLeaf (.single s) = .ok vc ∧ vc.allowsPlain (pyV X Y Z) = b ∧
+      evalItem s.name s.op s.value false E = some b :=
+  gpcLeaf_notin2 E X Y Z hE s p0 rest hs hn hop hv
+
 example : verList2 (3, 8) [(" ", (3, 9)), (", ", (3, 10))] = "3.8 3.9, 3.10" ∧
     normalizePyConj [("in", "3.8 3.9")] [[]] = .ok [["3.8.*"], ["3.9.*"]] :=
   ⟨by decide +kernel, by decide⟩
@@ -298,9 +309,9 @@ theorem pyConstraint_exact_validate_partial (E : Env) (X Y Z : Nat) (hE : EnvPy 
     (h : gpc m = .ok g) : M.validate E m = .ok (g.allowsPlain (pyV X Y Z)) :=
   gpc_exact_validate E X Y Z hE S m g hg hvars h
 
-/-- **conjunctions with `in` lists**: every pair contributes its alternatives (one clause for a comparison, one
-`X.Y.*` per listed version for `in`), and the conjunction is printed as all choices of one alternative per pair, in
-order (the expansion of repo fix bb3e413). -/
+/-- **conjunctions with `in` / `not in` lists**: every pair contributes its alternatives (one clause for a comparison,
+one `X.Y.*` per listed version for `in`, the single entry `!=X0.Y0.*, !=X1.Y1.*, …` for `not in`), and the
+conjunction is printed as all choices of one alternative per pair, in order (the expansion of repo fix bb3e413). -/
 theorem normalize_conj_alternatives (pas : List ((String × String) × List String))
     (h : ∀ x ∈ pas, PairAlts x.1.1 x.1.2 x.2) (alts : List (List String)) :
     normalizePyConj (pas.map (·.1)) alts =
@@ -310,14 +321,18 @@ theorem normalize_conj_alternatives (pas : List ((String × String) × List Stri
 example : normalizePyConj [(">=", "3.8"), ("in", "3.8 3.9")] [[]] = .ok [[">=3.8", "3.8.*"], [">=3.8", "3.9.*"]] := by
   decide
 
-/-- **the one-sided part against `validate`, `in` lists included** (leaf invariant `PyGL E`: coherent, evaluable
-single markers; python ones comparison items of the exact shape or `python_version in "X0.Y0 …"`). -/
+example : normalizePyConj [(">=", "3.8"), ("not in", "3.8 3.9")] [[]] = .ok [[">=3.8", "!=3.8.*, !=3.9.*"]] := by
+  decide
+
+/-- **the one-sided part against `validate`, `in` and `not in` lists included** (leaf invariant `PyGL E`: coherent, evaluable
+single markers; python ones comparison items of the exact shape, `python_version in "X0.Y0 …"` or
+`python_version not in "X0.Y0 …"`). -/
 theorem pyConstraint_upper_validate_lists_partial (E : Env) (X Y Z : Nat) (hE : EnvPy E X Y Z)
     (S : LeafSpec (leafEval E) (PyGL E)) (m : M) (g : VC) (hg : M.Good (PyGL E) m)
     (h : gpc m = .ok g) (hv : M.validate E m = .ok true) : g.allowsPlain (pyV X Y Z) = true :=
   gpc_upper_validate_lists E X Y Z hE S m g hg h hv
 
-/-- **exactness against `validate` for python-only markers, `in` lists included** -/
+/-- **exactness against `validate` for python-only markers, `in` and `not in` lists included** -/
 theorem pyConstraint_exact_validate_lists_partial (E : Env) (X Y Z : Nat) (hE : EnvPy E X Y Z)
     (S : LeafSpec (leafEval E) (PyGL E)) (m : M) (g : VC) (hg : M.Good (PyGL E) m)
     (hvars : ∀ n ∈ M.vars m, pyNames.contains n = true)
